@@ -1066,6 +1066,8 @@ func (handler *Handler) sendClientErrorResponse(msg string, request *Packet) err
 func (handler *Handler) sendClientError(msg string, packet *Packet) error {
 	errPacket := NewQueryInterruptedError(handler.Capabilities.IsClientSetProtocol41(), msg)
 	packet.SetData(errPacket)
+	// the deadline left on the connection is from the last answer of the database, which may be long ago
+	handler.clientConnection.SetWriteDeadline(time.Now().Add(network.DefaultNetworkTimeout))
 	_, err := handler.clientConnection.Write(packet.Dump())
 	return err
 }
